@@ -545,6 +545,10 @@ impl StreamH {
     pub fn window_buf_len(&self) -> usize {
         self.s.as_ref().map(|s| s.verif_window_buf_len()).unwrap_or(0)
     }
+    /// total bytes produced by the decoder so far (None before the header is complete / after an error)
+    pub fn produced(&self) -> Option<usize> {
+        self.s.as_ref().and_then(|s| s.verif_produced())
+    }
 }
 
 pub enum RawH {
